@@ -298,25 +298,32 @@ fn value_of_node(enc: Enc, ty: &Ty, n: &Node, op: Option<Op>) -> Option<String> 
         }
         _ => {}
     }
+    let typed_leaf = matches!(ty, Ty::Bool | Ty::I64 | Ty::U64 | Ty::I32 | Ty::U32 | Ty::F64 | Ty::F32 | Ty::Str);
+    let ty_err = Some("err:type".to_string());
     match n {
+        // a map / struct requested for a scalar: both paths refuse with the same class (Lean `Fits.mapOnLeaf` / `stOnLeaf`)
+        Node::Leaf(_) if matches!(ty, Ty::Map(_) | Ty::Struct(_)) => ty_err,
         Node::Leaf(l) => value_of_leaf(enc, ty, l),
-        Node::Obj(fs) => value_of_fields(enc, ty, fs),
+        // a typed scalar requested for a container: both paths refuse with the same class (`Fits.leafOnObj` / `leafOnArr`)
+        Node::Obj(_) | Node::Arr(_) if typed_leaf => ty_err,
+        Node::Obj(fs) if !fs.is_empty() => value_of_fields(enc, ty, fs),
+        Node::Obj(_) => value_of_node(enc, ty, &Node::Arr(vec![]), op),
         Node::Arr(vs) => match ty {
             Ty::Seq(t) => {
-                if matches!(vs.first(), Some(Node::Arr(v)) if v.is_empty()) { return None; }
+                if matches!(vs.first(), Some(Node::Arr(v)) if v.is_empty()) || matches!(vs.first(), Some(Node::Obj(v)) if v.is_empty()) { return None; }
                 let mut items = vec![];
-                for v in vs {
-                    if arr_units(v) == 2 {
-                        if **t != Ty::Ign { return None; }
-                        items.push("ign".to_string()); items.push("ign".to_string());
-                    } else {
-                        let x = value_of_node(enc, t, v, None)?;
-                        if is_err(&x) { return Some(x); }
-                        items.push(x);
-                    }
+                // inside an array a header value is two values, its name and its body (Lean `expandNodes`)
+                for v in expand_nodes(vs)? {
+                    let x = value_of_node(enc, t, &v, None)?;
+                    if is_err(&x) { return Some(x); }
+                    items.push(x);
                 }
                 Some(format!("[{}]", items.join(",")))
             }
+            // `any` on an array of scalars / arrays / header values, any depth (Lean `anyVal`, `Fits.anyArr`)
+            Ty::Any => any_val(enc, n),
+            // the empty `{}` read as a map / struct (`Fits.emptyMap` / `emptySt`)
+            Ty::Map(_) | Ty::Struct(_) if vs.is_empty() => value_of_fields(enc, ty, &[]),
             _ => None,
         },
         // a header value read with a scalar target (not `any`: the tape path would present the body) is its
@@ -325,6 +332,107 @@ fn value_of_node(enc: Enc, ty: &Ty, n: &Node, op: Option<Op>) -> Option<String> 
         Node::Rgb(..) => if has_any(ty) { None } else { value_of_leaf(enc, ty, &Leaf::Unq(b"rgb".to_vec())) },
         Node::Mixed(..) => None,
     }
+}
+
+/// a header value as (name, body); `Rgb` is `rgb { r g b [a] }`
+fn hdr_parts(n: &Node) -> Option<(Vec<u8>, Node)> {
+    match n {
+        Node::Header(name, body) if matches!(**body, Node::Obj(_) | Node::Arr(_)) => Some((name.clone(), (**body).clone())),
+        Node::Rgb(r, g, b, a) => Some((b"rgb".to_vec(), Node::Arr([Some(*r), Some(*g), Some(*b), *a].iter().flatten().map(|c| Node::Leaf(Leaf::Unq(c.to_string().into_bytes()))).collect()))),
+        _ => None,
+    }
+}
+
+/// Lean `expandNodes`
+fn expand_nodes(vs: &[Node]) -> Option<Vec<Node>> {
+    let mut out = vec![];
+    for v in vs {
+        match v {
+            Node::Header(..) | Node::Rgb(..) => { let (n, b) = hdr_parts(v)?; out.push(Node::Leaf(Leaf::Unq(n))); out.push(b); }
+            Node::Mixed(..) => return None,
+            _ => out.push(v.clone()),
+        }
+    }
+    Some(out)
+}
+
+/// Lean `anyVal`: the tree serde's `deserialize_any` builds on BOTH paths (objects excluded: the paths differ there)
+fn any_val(enc: Enc, n: &Node) -> Option<String> {
+    match n {
+        Node::Leaf(l) => value_of_leaf(enc, &Ty::Any, l),
+        Node::Obj(fs) if fs.is_empty() => Some("[]".into()),
+        Node::Arr(vs) => {
+            if matches!(vs.first(), Some(Node::Arr(v)) if v.is_empty()) || matches!(vs.first(), Some(Node::Obj(v)) if v.is_empty()) { return None; }
+            let items = expand_nodes(vs)?.iter().map(|v| any_val(enc, v)).collect::<Option<Vec<_>>>()?;
+            Some(format!("[{}]", items.join(",")))
+        }
+        _ => None,
+    }
+}
+
+/// Lean `Bad` (Spec/TextDoc.lean), plus everything outside the abstract document of the spec: `false` means
+/// the Lean theorem `C02_error_agreement` CLAIMS that both paths return the same result (value or error class)
+fn bad(enc: Enc, field_pos: bool, ty: &Ty, n: &Node) -> bool {
+    match n {
+        Node::Mixed(..) => return true,
+        Node::Header(_, body) if !matches!(**body, Node::Obj(_) | Node::Arr(_)) => return true,
+        Node::Obj(fs) if fs.iter().any(|f| f.ghosts > 0 || f.implicit_eq || matches!(f.key, Leaf::Quo(_))) => return true,
+        // the recorded finding `array-leading-empty` (a byte-level difference of the two parsers)
+        Node::Arr(vs) if vs.len() > 1 && (matches!(vs.first(), Some(Node::Arr(v)) if v.is_empty()) || matches!(vs.first(), Some(Node::Obj(v)) if v.is_empty())) => return true,
+        _ => {}
+    }
+    let is_hdr = matches!(n, Node::Header(..) | Node::Rgb(..));
+    let empty = matches!(n, Node::Arr(v) if v.is_empty()) || matches!(n, Node::Obj(f) if f.is_empty());
+    match ty {
+        Ty::Bool | Ty::I64 | Ty::U64 | Ty::I32 | Ty::U32 | Ty::F64 | Ty::F32 | Ty::Str | Ty::Ign => false,
+        Ty::Any => match n {
+            Node::Leaf(_) => false,
+            Node::Arr(vs) => !any_oks(vs),
+            Node::Obj(_) if empty => false,
+            _ => true,
+        },
+        Ty::Enum(_) => !(matches!(n, Node::Leaf(_)) || is_hdr),
+        Ty::Opt(t) => bad(enc, field_pos, t, n),
+        Ty::Prop(t) => !field_pos || bad(enc, false, t, n),
+        Ty::Seq(t) => match n {
+            Node::Arr(vs) => match expand_nodes(vs) { Some(xs) => xs.iter().any(|x| bad(enc, false, t, x)), None => true },
+            Node::Obj(_) if empty => false,
+            _ => true,
+        },
+        Ty::Map(t) => match n {
+            Node::Leaf(_) => false,
+            _ if empty => false,
+            Node::Obj(fs) => fs.iter().any(|f| bad(enc, true, t, &f.val)),
+            _ => true,
+        },
+        Ty::Struct(decl) => match n {
+            Node::Leaf(_) => false,
+            _ if empty => false,
+            Node::Obj(fs) => fs.iter().any(|f| {
+                let key = decode_ref(enc, &raw_bytes(&f.key));
+                match decl.iter().find(|(name, _)| name.as_bytes() == &key[..]) { Some((_, t)) => bad(enc, true, t, &f.val), None => false }
+            }),
+            _ => true,
+        },
+        // outside the Lean models' type grammar
+        Ty::U16 | Ty::I16 | Ty::U8 | Ty::I8 | Ty::Tuple(_) | Ty::Unit => true,
+    }
+}
+
+/// Lean `anyOks`
+fn any_oks(vs: &[Node]) -> bool {
+    match expand_nodes(vs) {
+        Some(xs) => xs.iter().all(|x| match x { Node::Leaf(_) => true, Node::Arr(ys) => !bad_leading(ys) && any_oks(ys), Node::Obj(f) => f.is_empty(), _ => false }),
+        None => false,
+    }
+}
+fn bad_leading(vs: &[Node]) -> bool {
+    vs.len() > 1 && (matches!(vs.first(), Some(Node::Arr(v)) if v.is_empty()) || matches!(vs.first(), Some(Node::Obj(v)) if v.is_empty()))
+}
+
+/// the whole document against a root type: does `C02_error_agreement` claim agreement?
+fn agreement_claimed(enc: Enc, ty: &Ty, doc: &Doc) -> bool {
+    matches!(ty, Ty::Struct(_) | Ty::Map(_)) && !doc.fields.is_empty() && !bad(enc, false, ty, &Node::Obj(doc.fields.clone()))
 }
 
 fn has_any(t: &Ty) -> bool {
@@ -736,6 +844,16 @@ pub fn exec(w: &[&str], obs: &mut Obs) -> Option<String> {
                 if kind == "array-leading-empty" {
                     if x != r { obs.violation(kind, &case(), &format!("tape {} reader {}", r, x)); } else { obs.count("probe-agrees:array-leading-empty"); }
                 }
+            } else if *expect == "%" {
+                // a witness of Lean `C02_divergent_witnesses`: the models differ here; each real path is diffed
+                // against its model by the runner, the observed relation of the real paths is counted
+                let (x, _) = run_reader(enc, &ty, TokenReader::from_slice(&data));
+                obs.count(if x != r { "divergent-witness:real-paths-differ" } else { "divergent-witness:real-paths-agree" });
+            } else if *expect == "=" {
+                // Lean `C02_error_agreement`: outside `Bad` both paths return the same value or the same error class
+                obs.count("tape:agreement-claimed");
+                let (x, _) = run_reader(enc, &ty, TokenReader::from_slice(&data));
+                if x != r { obs.violation("error-agreement", &case(), &format!("tape {} reader {}", r, x)); }
             } else if *expect != "-" {
                 obs.count("tape:with-expectation");
                 if !matches_expect(&r, expect) { obs.violation("value-of", &case(), &format!("tape path {} reference {}", r, expect)); }
@@ -769,6 +887,12 @@ pub fn exec(w: &[&str], obs: &mut Obs) -> Option<String> {
             if let Some(kind) = expect.strip_prefix('!') {
                 let s = run_slice(enc, &ty, &data);
                 if s != r { obs.violation(kind, &case(), &format!("reader {} tape {}", r, s)); } else { obs.count(&format!("probe-agrees:{}", kind)); }
+            } else if *expect == "%" {
+                obs.count("stream:divergent-witness");
+            } else if *expect == "=" {
+                obs.count("stream:agreement-claimed");
+                let s = run_slice(enc, &ty, &data);
+                if s != r { violation(obs, "error-agreement", format!("reader {} tape {}", r, s)); }
             } else if *expect != "-" {
                 obs.count("stream:with-expectation");
                 if !matches_expect(&r, expect) { violation(obs, "value-of", format!("stream path {} reference {}", r, expect)); }
@@ -837,6 +961,16 @@ pub fn exec(w: &[&str], obs: &mut Obs) -> Option<String> {
     }
 }
 
+/// (type of field `x`, text of its value): Lean `Jomini.TextE2E.divergentWitnesses`, same order
+const DIVERGENT_WITNESSES: [(&str, &str); 14] = [
+    ("any", "{ a=1 }"), ("any", "{ { a=1 } }"), ("any", "rgb { 1 }"),
+    ("en(a)", "{ a=1 }"), ("en(p)", "{ p q }"),
+    ("seq(str)", "s"), ("seq(str)", "{ a=1 }"), ("seq(any)", "rgb { 1 }"),
+    ("map(str)", "{ p q }"), ("map(str)", "rgb { a=1 }"),
+    ("st(a:opt(str))", "{ p }"), ("st(a:opt(str))", "rgb { a=1 }"),
+    ("seq(prop(str))", "{ p q }"), ("prop(prop(str))", "s"),
+];
+
 fn emit_pair(g: &mut Gen, enc: Enc, ty: &Ty, data: &[u8], expect: Option<&str>) {
     emit_pair_with(g, enc, ty, data, expect, None)
 }
@@ -877,6 +1011,17 @@ pub fn gen(g: &mut Gen) {
             emit_pair_with(g, Enc::W, &ty, text, Some(expect), Some((cap, sch)));
         }
     }
+    // 0b. the witnesses of Lean `C02_divergent_witnesses` (one per atomic combination of `Bad`), run on the
+    //     real code: the two paths legitimately differ, each is compared with its model
+    for (ty, text) in DIVERGENT_WITNESSES {
+        let ty = parse_ty(&format!("st(x:{};w:opt(str))", ty)).unwrap();
+        let text = format!("x={} w=z", text);
+        for enc in [Enc::U, Enc::W] {
+            for (cap, sch) in [(32768usize, "-"), (8, "R1"), (16, "3,1,R5")] {
+                emit_pair_with(g, enc, &ty, text.as_bytes(), Some("%"), Some((cap, sch)));
+            }
+        }
+    }
     // 1. well-formed save-style documents x layouts x encodings x target types
     let n = g.budget(30_000, 300_000);
     let cfg = DocCfg::save_style();
@@ -893,7 +1038,13 @@ pub fn gen(g: &mut Gen) {
             let expect = value_of(enc, &ty, &doc);
             count_float_hits(g, &expect);
             g.count(if expect.is_some() { "wf:with-expectation" } else { "wf:no-expectation" });
+            // no reference value, but the pair is outside Lean's `Bad`: the two paths must still agree
+            let claimed = expect.is_none() && agreement_claimed(enc, &ty, &doc);
+            if claimed { g.count("wf:agreement-claimed-without-value"); }
+            if let Some(e) = &expect { if is_err(e) { g.count(&format!("wf:expected-error:{}", e.split(':').nth(1).unwrap_or("?"))); } }
+            let expect = if claimed { Some("=".to_string()) } else { expect };
             emit_pair(g, enc, &ty, &data, expect.as_deref());
+            let expect = if claimed { None } else { expect };
             emit_spec(g, enc, &ty, &doc, expect.as_deref());
         }
     }
